@@ -290,8 +290,19 @@ trait HipKind<'a>: Sized + Clone {
     fn borrowed(b: &'a [u8]) -> Self;
     fn owned(b: &[u8]) -> Self;
     fn rep(&self) -> &'static str;
-    /// sub-value `[..k]` sharing the buffer when the representation allows it
-    fn prefix(&self, k: usize) -> Self;
+    /// sub-value `[a..b]` sharing the buffer when the representation allows it (zero-copy view)
+    fn sub(&self, a: usize, b: usize) -> Self;
+    fn prefix(&self, k: usize) -> Self {
+        self.sub(0, k)
+    }
+    fn bytes(&self) -> Vec<u8>;
+    /// the lines of `text` as zero-copy views of ONE heap value (through `HipStr::lines`)
+    fn line_views(text: &str) -> Vec<Self>;
+}
+
+fn str_lines<'a, B: Backend>(text: &str) -> Vec<HipStr<'a, B>> {
+    let t: HipStr<'a, B> = HipStr::from(text.to_string());
+    t.lines().collect()
 }
 
 fn rep3(inline: bool, borrowed: bool, allocated: bool) -> &'static str {
@@ -316,8 +327,14 @@ impl<'a, B: Backend> HipKind<'a> for HipByt<'a, B> {
     fn rep(&self) -> &'static str {
         rep3(self.is_inline(), self.is_borrowed(), self.is_allocated())
     }
-    fn prefix(&self, k: usize) -> Self {
-        self.slice(0..k)
+    fn sub(&self, a: usize, b: usize) -> Self {
+        self.slice(a..b)
+    }
+    fn bytes(&self) -> Vec<u8> {
+        self.as_slice().to_vec()
+    }
+    fn line_views(text: &str) -> Vec<Self> {
+        str_lines::<B>(text).into_iter().map(HipByt::from).collect()
     }
 }
 
@@ -334,8 +351,14 @@ impl<'a, B: Backend> HipKind<'a> for HipStr<'a, B> {
     fn rep(&self) -> &'static str {
         rep3(self.is_inline(), self.is_borrowed(), self.is_allocated())
     }
-    fn prefix(&self, k: usize) -> Self {
-        self.slice(0..k)
+    fn sub(&self, a: usize, b: usize) -> Self {
+        self.slice(a..b)
+    }
+    fn bytes(&self) -> Vec<u8> {
+        self.as_str().as_bytes().to_vec()
+    }
+    fn line_views(text: &str) -> Vec<Self> {
+        str_lines::<B>(text)
     }
 }
 
@@ -352,9 +375,15 @@ impl<'a, B: Backend> HipKind<'a> for HipOsStr<'a, B> {
     fn rep(&self) -> &'static str {
         rep3(self.is_inline(), self.is_borrowed(), self.is_allocated())
     }
-    fn prefix(&self, k: usize) -> Self {
-        let sub = OsStr::from_bytes(&self.as_os_str().as_bytes()[..k]);
+    fn sub(&self, a: usize, b: usize) -> Self {
+        let sub = OsStr::from_bytes(&self.as_os_str().as_bytes()[a..b]);
         self.slice_ref(sub)
+    }
+    fn bytes(&self) -> Vec<u8> {
+        self.as_os_str().as_bytes().to_vec()
+    }
+    fn line_views(text: &str) -> Vec<Self> {
+        str_lines::<B>(text).into_iter().map(HipOsStr::from).collect()
     }
 }
 
@@ -371,9 +400,15 @@ impl<'a, B: Backend> HipKind<'a> for HipPath<'a, B> {
     fn rep(&self) -> &'static str {
         rep3(self.is_inline(), self.is_borrowed(), self.is_allocated())
     }
-    fn prefix(&self, k: usize) -> Self {
+    fn sub(&self, a: usize, b: usize) -> Self {
         let os: HipOsStr<'a, B> = self.clone().into_os_str();
-        HipPath::from(HipKind::prefix(&os, k))
+        HipPath::from(HipKind::sub(&os, a, b))
+    }
+    fn bytes(&self) -> Vec<u8> {
+        self.as_os_str().as_bytes().to_vec()
+    }
+    fn line_views(text: &str) -> Vec<Self> {
+        str_lines::<B>(text).into_iter().map(HipPath::from).collect()
     }
 }
 
@@ -548,13 +583,25 @@ fn observe(cx: &mut Cx, label: &str, rep: &str, opname: &'static str, a: &[u8], 
                 println!("{op} impl={obs} oracle={oracle} model={model}");
             }
         }
+        // aggregate checks (set sizes) sort after the concrete pairs
+        let size = if opname.ends_with("-dedup") { 10_000 } else { a.len() + b.len() };
         if obs != oracle {
-            cx.disagree_with("impl-vs-oracle", label, opname, a.len() + b.len(), || (mk(), oracle.to_string(), obs.to_string()));
+            cx.disagree_with("impl-vs-oracle", label, opname, size, || (mk(), oracle.to_string(), obs.to_string()));
         }
         if obs != model {
-            cx.disagree_with("impl-vs-model", label, opname, a.len() + b.len(), || (mk(), model.to_string(), obs.to_string()));
+            cx.disagree_with("impl-vs-model", label, opname, size, || (mk(), model.to_string(), obs.to_string()));
         }
     }
+}
+
+/// `observe` for byte-string results: hex only when something has to be printed.
+#[allow(clippy::too_many_arguments)]
+fn observe_bytes(cx: &mut Cx, label: &str, rep: &str, opname: &'static str, a: &[u8], b: &[u8], obs: &[u8], oracle: &[u8], model: &[u8]) {
+    if obs == oracle && obs == model && cx.trace.is_none() && (cx.evaluations + 1) % 20_000_003 != 1 {
+        cx.evaluations += 1;
+        return;
+    }
+    observe(cx, label, rep, opname, a, b, &hex(obs), &hex(oracle), &hex(model));
 }
 
 fn b2s(b: bool) -> &'static str {
@@ -612,6 +659,8 @@ where
         observe(cx, label, rep, "gt", a, b, b2s(h > s), b2s(oracle.is_gt()), b2s(model.is_gt()));
         observe(cx, label, rep, "ge", a, b, b2s(h >= s), b2s(oracle.is_ge()), b2s(model.is_ge()));
         observe(cx, label, rep, "lt-swapped", a, b, b2s(s < h), b2s(oracle.is_gt()), b2s(model.is_gt()));
+        observe(cx, label, rep, "le-swapped", a, b, b2s(s <= h), b2s(oracle.is_ge()), b2s(model.is_ge()));
+        observe(cx, label, rep, "gt-swapped", a, b, b2s(s > h), b2s(oracle.is_lt()), b2s(model.is_lt()));
         observe(cx, label, rep, "ge-swapped", a, b, b2s(s >= h), b2s(oracle.is_le()), b2s(model.is_le()));
     });
 }
@@ -878,6 +927,8 @@ where
 {
     let o1 = format!("hip:{k}");
     let view = env.model.view(&mut env.lean, &o1, &o1)?.ok_or("no view")?;
+    // a fixed third operand for `clamp`
+    let third: Option<(usize, K)> = hs.iter().enumerate().find_map(|(i, v)| if env.pool[i].len() == 2 { v.first().map(|(_, h)| (i, h.clone())) } else { None });
     let hview = env.model.hashview(&mut env.lean, &o1)?;
     let label = format!("{o1}:{bname} {o1}:{bname}");
     let ln = lean_operand_name(&o1);
@@ -910,19 +961,141 @@ where
             guarded(cx, &label, |cx| observe(cx, &label, &format!("{rep1}/clone"), "cmp", a, a, ord_name(h.cmp(&c)), ord_name(o.1), ord_name(m.1)));
             for (j, ys) in hs.iter().enumerate() {
                 let b = &env.pool[j][..];
-                for (rep2, s) in ys {
+                for (r2, (rep2, s)) in ys.iter().enumerate() {
+                    let rep2_first = r2 == 0;
                     let o = oracle(k, class, a, b);
                     let m = env.model.rel(view, i, j);
                     let rep = format!("{rep1}/{rep2}");
                     guarded(cx, &label, |cx| {
                         observe(cx, &label, &rep, "cmp", a, b, ord_name(h.cmp(s)), ord_name(o.1), ord_name(m.1));
                         observe(cx, &label, &rep, "max-is-rhs", a, b, b2s(h.max(s) as *const K == s as *const K), b2s(o.1 != Ordering::Greater), b2s(m.1 != Ordering::Greater));
+                        // provided methods called on the real type (an override would be exercised)
+                        observe(cx, &label, &rep, "partial_cmp-vs-cmp", a, b, po2s(h.partial_cmp(s)), ord_name(o.1), ord_name(m.1));
+                        if rep2_first {
+                            let (mx, mn) = (K::max(h.clone(), s.clone()).bytes(), K::min(h.clone(), s.clone()).bytes());
+                            let (emx, emn) = (if o.1 == Ordering::Greater { a } else { b }, if o.1 == Ordering::Greater { b } else { a });
+                            let (mmx, mmn) = (if m.1 == Ordering::Greater { a } else { b }, if m.1 == Ordering::Greater { b } else { a });
+                            observe_bytes(cx, &label, &rep, "max", a, b, &mx, emx, mmx);
+                            observe_bytes(cx, &label, &rep, "min", a, b, &mn, emn, mmn);
+                            if let Some((t, tv)) = &third {
+                                // clamp(self = h, lo, hi) with {lo, hi} = {s, third} ordered by the oracle
+                                let c = &env.pool[*t][..];
+                                let (lo_i, hi_i, lo, hi) = if oracle(k, class, b, c).1 == Ordering::Greater { (*t, j, tv, s) } else { (j, *t, s, tv) };
+                                let want = |cmp: &dyn Fn(usize, usize) -> Ordering| -> usize {
+                                    if cmp(i, lo_i) == Ordering::Less {
+                                        lo_i
+                                    } else if cmp(i, hi_i) == Ordering::Greater {
+                                        hi_i
+                                    } else {
+                                        i
+                                    }
+                                };
+                                let eo = want(&|x, y| oracle(k, class, &env.pool[x], &env.pool[y]).1);
+                                let em = want(&|x, y| env.model.rel(view, x, y).1);
+                                // `clamp` asserts lo <= hi with the crate's own `cmp`; a wrong order shows as a panic
+                                let got = h.clone().clamp(lo.clone(), hi.clone()).bytes();
+                                observe_bytes(cx, &label, &rep, "clamp", a, b, &got, &env.pool[eo], &env.pool[em]);
+                            }
+                        }
                     });
                 }
             }
         }
     }
     *cx.distribution.entry(format!("{o1} cmp/hash")).or_insert(0) += cx.evaluations - before;
+    Ok(())
+}
+
+/// RELATED operands: values that share one heap buffer. For every pool string `c` of more than 23
+/// bytes (so that views stay `Allocated`): two zero-copy views with equal content at different
+/// offsets of ONE buffer holding `c ++ c` (plus the views at offsets 4 and 8 when `c` has period 4,
+/// e.g. `"ab./".repeat(12)` sliced at 0..24, 4..28, 8..32), the same two views of a borrowed buffer,
+/// a clone of a view, an independent heap copy and its clone, a borrowed value, and duplicate lines
+/// of one text through `lines()`. Every ordered pair within such a family must compare, order and
+/// hash like the std view of the (equal) bytes; a `HashSet`/`BTreeSet` of all of them dedups to the
+/// number of distinct contents.
+fn related<'a, K>(cx: &mut Cx, env: &mut Env<'a>, k: &'static str, bname: &str, class: Class) -> Result<(), String>
+where
+    K: HipKind<'a> + PartialEq<K> + PartialOrd<K> + Ord + Hash,
+{
+    let o1 = format!("hip:{k}");
+    let view = env.model.view(&mut env.lean, &o1, &o1)?.ok_or("no view")?;
+    let label = format!("{o1}:{bname} {o1}:{bname}");
+    let before = cx.evaluations;
+    let mut all: Vec<(usize, K)> = vec![];
+    let doubles: Vec<Option<Vec<u8>>> = env.pool.iter().map(|c| if c.len() > 23 && K::accepts(c) { Some([&c[..], &c[..]].concat()) } else { None }).collect();
+    for (i, c) in env.pool.iter().enumerate() {
+        let Some(dbl) = &doubles[i] else { continue };
+        let n = c.len();
+        let heap = K::owned(dbl);
+        let mut fam: Vec<(String, K)> = vec![];
+        let mut offs = vec![0, n];
+        for off in [4usize, 8] {
+            if off < n && dbl[off..off + n] == c[..] {
+                offs.push(off);
+            }
+        }
+        for &off in &offs {
+            let v = heap.sub(off, off + n);
+            fam.push((format!("{}-view@{off}", v.rep()), v));
+        }
+        fam.push(("view-clone".into(), fam[0].1.clone()));
+        let copy = K::owned(c);
+        fam.push((format!("{}-copy-clone", copy.rep()), copy.clone()));
+        fam.push((format!("{}-copy", copy.rep()), copy));
+        fam.push(("borrowed".into(), K::borrowed(&env.pool[i])));
+        if let Ok(text) = std::str::from_utf8(c) {
+            if !text.contains('\n') && !text.contains('\r') {
+                for (li, v) in K::line_views(&format!("{text}\n{text}\n{text}\n")).into_iter().enumerate() {
+                    fam.push((format!("{}-line#{li}", v.rep()), v));
+                }
+            }
+        }
+        let a = &c[..];
+        let o = oracle(k, class, a, a);
+        let m = env.model.rel(view, i, i);
+        for (t1, x) in &fam {
+            let sx = stream(x);
+            for (t2, y) in &fam {
+                let rep = format!("related:{t1}/{t2}");
+                check_eq(cx, &label, &rep, a, a, x, y, o.0, m.0);
+                check_ord(cx, &label, &rep, a, a, x, y, o.1, m.1);
+                guarded(cx, &label, |cx| {
+                    observe(cx, &label, &rep, "cmp", a, a, ord_name(x.cmp(y)), ord_name(o.1), ord_name(m.1));
+                    observe(cx, &label, &rep, "hash-equal", a, a, b2s(sx == stream(y)), "true", "true");
+                });
+                cx.distinct.insert(format!("{k} related {t1}/{t2}"));
+            }
+        }
+        all.extend(fam.into_iter().map(|(_, v)| (i, v)));
+    }
+    // dedup through the collections: as many keys as distinct contents (per the std view)
+    let mut reps_o: Vec<usize> = vec![];
+    let mut reps_m: Vec<usize> = vec![];
+    for (i, _) in &all {
+        if !reps_o.iter().any(|j| oracle(k, class, &env.pool[*i], &env.pool[*j]).0) {
+            reps_o.push(*i);
+        }
+        if !reps_m.iter().any(|j| env.model.rel(view, *i, *j).0) {
+            reps_m.push(*i);
+        }
+    }
+    let hs: std::collections::HashSet<K, FixedState> = all.iter().map(|(_, v)| v.clone()).collect();
+    let bs: BTreeSet<K> = all.iter().map(|(_, v)| v.clone()).collect();
+    let mut dd: Vec<K> = all.iter().map(|(_, v)| v.clone()).collect();
+    dd.dedup();
+    let mut runs = 0usize;
+    let mut last: Option<usize> = None;
+    for (i, _) in &all {
+        if last.map_or(true, |l| !oracle(k, class, &env.pool[l], &env.pool[*i]).0) {
+            runs += 1;
+        }
+        last = Some(*i);
+    }
+    observe(cx, &label, "related", "hashset-dedup", &[], &[], &hs.len().to_string(), &reps_o.len().to_string(), &reps_m.len().to_string());
+    observe(cx, &label, "related", "btreeset-dedup", &[], &[], &bs.len().to_string(), &reps_o.len().to_string(), &reps_m.len().to_string());
+    observe(cx, &label, "related", "vec-dedup", &[], &[], &dd.len().to_string(), &runs.to_string(), &runs.to_string());
+    *cx.distribution.entry(format!("{o1} related")).or_insert(0) += cx.evaluations - before;
     Ok(())
 }
 
@@ -1023,7 +1196,8 @@ where
         cx.evaluations += 2;
         let show = |o: Option<usize>| o.map_or("none".to_string(), |i| hex(&env.pool[i]));
         if want_h.is_none() || want_b.is_none() {
-            cx.internal.push(format!("{label}: key {} not found by its own type", hex(b)));
+            // the key was inserted: its own `Eq`/`Hash`/`Ord` are inconsistent
+            violation(cx, "map-get-own-key", rep, &[], b, "found".into(), format!("hashmap {} btreemap {}", show(want_h), show(want_b)));
         }
         if got_h != want_h {
             violation(cx, "hashmap-get", rep, &[], b, show(want_h), show(got_h));
@@ -1076,6 +1250,10 @@ fn run_backend<'a, B: Backend>(cx: &mut Cx, env: &mut Env<'a>, bname: &str, mast
     shared_prefixes::<HipStr<'a, B>>(cx, env, "str", bname, Class::Str, master, prefix_idx)?;
     shared_prefixes::<HipOsStr<'a, B>>(cx, env, "os", bname, Class::OsStr, master, prefix_idx)?;
     shared_prefixes::<HipPath<'a, B>>(cx, env, "path", bname, Class::Path, master, prefix_idx)?;
+    related::<HipByt<'a, B>>(cx, env, "byt", bname, Class::Slice)?;
+    related::<HipStr<'a, B>>(cx, env, "str", bname, Class::Str)?;
+    related::<HipOsStr<'a, B>>(cx, env, "os", bname, Class::OsStr)?;
+    related::<HipPath<'a, B>>(cx, env, "path", bname, Class::Path)?;
 
     borrow_checks::<_, [u8]>(cx, env, "byt", bname, "[u8]", &byt);
     borrow_checks::<_, BStr>(cx, env, "byt", bname, "BStr", &byt);
@@ -1109,6 +1287,47 @@ fn run_backend_pair<'a, B1: Backend, B2: Backend>(cx: &mut Cx, env: &mut Env<'a>
 
 // ---------------------------------------------------------------------------------------------
 // pool
+
+fn extra_push(pool: &mut Vec<Vec<u8>>, s: Vec<u8>) {
+    if !pool.contains(&s) {
+        pool.push(s);
+    }
+}
+
+/// Second pool: 8–40-byte operands that differ at 1, 2 or 3 positions inside the first 8 bytes (in
+/// opposite directions, so that a word-at-a-time comparison with the wrong endianness gets the
+/// order wrong), at the word boundary (7 / 8 / 9), and only in the tail. All ordered pairs.
+fn make_word_pool() -> (Vec<Vec<u8>>, usize, Vec<(usize, usize)>) {
+    let mut pool: Vec<Vec<u8>> = vec![b"incoming".to_vec(), b"outgoing".to_vec(), b"incoming/".to_vec(), b"outgoing/".to_vec()];
+    for len in [8usize, 9, 16, 40] {
+        let base: Vec<u8> = (0..len).map(|i| b'b' + (i % 24) as u8).collect();
+        let mut mods: Vec<Vec<(usize, i8)>> = vec![
+            vec![],
+            vec![(0, 1)],
+            vec![(3, 1)],
+            vec![(7, 1)],
+            vec![(0, 1), (7, -1)],
+            vec![(1, -1), (6, 1)],
+            vec![(0, 1), (3, -1), (7, 1)],
+            vec![(2, -1), (4, 1), (5, -1)],
+            vec![(len - 1, 1)],
+        ];
+        if len > 8 {
+            mods.extend([vec![(8, 1)], vec![(7, 1), (8, -1)], vec![(7, -1), (8, 1)]]);
+        }
+        if len > 9 {
+            mods.extend([vec![(9, 1)], vec![(len - 2, -1)], vec![(0, -1), (len - 1, 1)]]);
+        }
+        for m in mods {
+            let mut t = base.clone();
+            for (p, d) in m {
+                t[p] = (t[p] as i16 + d as i16) as u8;
+            }
+            extra_push(&mut pool, t);
+        }
+    }
+    (pool, 0, vec![(8, 0)])
+}
 
 fn make_pool(tier: &str, seed: u64) -> (Vec<Vec<u8>>, usize, Vec<(usize, usize)>) {
     let alpha: [u8; 5] = [b'a', b'b', b'/', b'.', 0x80];
@@ -1180,6 +1399,9 @@ fn make_pool(tier: &str, seed: u64) -> (Vec<Vec<u8>>, usize, Vec<(usize, usize)>
             pool.push(s);
         }
     }
+    // periodic heap-sized content: `"ab./".repeat(12)` holds it at offsets 0, 4, 8, … (see `related`)
+    extra_push(&mut pool, b"ab./".repeat(6));
+    extra_push(&mut pool, b"a/b/".repeat(7));
     // seeded random strings over the same alphabet (lengths 4..=40)
     let mut rng = hipverif_harness::util::Rng::new(seed);
     let n_random = if tier == "thorough" { 60 } else { 10 };
@@ -1492,7 +1714,7 @@ fn probe_phase(lean: &mut Lean, repo_dir: &Path, tier: &str, keep: bool) -> Resu
     let mut unspellable = vec![];
     let all_b = ["Arc", "Rc", "Unique"];
     let one_b: &[&str] = if tier == "thorough" { &all_b } else { &all_b[..1] };
-    let pair_b: &[(&str, &str)] = &[("Arc", "Arc"), ("Arc", "Rc"), ("Rc", "Unique"), ("Unique", "Arc")];
+    let pair_b: &[(&str, &str)] = &[("Arc", "Arc"), ("Rc", "Rc"), ("Unique", "Unique"), ("Arc", "Rc"), ("Rc", "Unique"), ("Unique", "Arc")];
     for (ri, r) in rows.iter().enumerate() {
         if skip.contains(&ri) {
             continue;
@@ -1542,7 +1764,10 @@ fn probe_phase(lean: &mut Lean, repo_dir: &Path, tier: &str, keep: bool) -> Resu
                     let btag = if lhs_hip && rhs_hip { format!("{b1}/{b2}") } else { b1.to_string() };
                     for (lt, lu) in &ls {
                         for (rt, ru) in &rs {
-                            let mut body = format!("    {{ {}\n      {}\n      {f_row}::<{lt}, {rt}>({:?}, {:?}, &xr, &yr);\n", refs_of("xr", lt, *lu), refs_of("yr", rt, *ru), rowtag(&btag), r.view);
+                            // same type on both sides: ONE sample vector, so that related values (views of one
+                            // buffer, clones) meet each other
+                            let ys = if lt == rt { format!("let yr: Vec<(Bytes, &{rt})> = xr.clone();") } else { refs_of("yr", rt, *ru) };
+                            let mut body = format!("    {{ {}\n      {ys}\n      {f_row}::<{lt}, {rt}>({:?}, {:?}, &xr, &yr);\n", refs_of("xr", lt, *lu), rowtag(&btag), r.view);
                             if has_rev {
                                 body.push_str(&format!("      {f_sym}::<{lt}, {rt}>({:?}, &xr, &yr);\n", rowtag(&btag)));
                             }
@@ -1786,6 +2011,15 @@ fn real_main(cli: &hipverif_harness::util::Cli) -> Result<i32, String> {
         run(&mut cx, &mut env, master, &prefix_idx)?;
     }
     let mut lean = env.lean;
+    // second pass: the word-boundary family (all impls again, small pool)
+    let (pool2, master2, prefix2) = if do_diff && !replaying { make_word_pool() } else { (vec![], 0, vec![]) };
+    let stds2: Vec<StdVals> = pool2.iter().map(|b| StdVals::new(b)).collect();
+    if !pool2.is_empty() {
+        let model2 = Model::fetch(&mut lean, &pool2)?;
+        let mut env2 = Env { pool: &pool2, stds: &stds2, model: model2, lean };
+        run(&mut cx, &mut env2, master2, &prefix2)?;
+        lean = env2.lean;
+    }
 
     // generated generic probes: every row the driver lists
     let probe = if do_probe { Some(probe_phase(&mut lean, &repo_dir, &cli.tier, keep)?) } else { None };
@@ -1923,11 +2157,12 @@ fn real_main(cli: &hipverif_harness::util::Cli) -> Result<i32, String> {
     let stats = json!({
         "evaluations": cx.evaluations,
         "distinct_nontrivial": cx.distinct.len(),
-        "rule": "exhaustive ordered pairs of byte strings of length <= 3 over {a,b,/,.,0x80} (0x80 dropped for str-typed operands) plus heap-sized strings with common prefixes plus U+FFFD / case-variant / trailing-NUL strings (lossy or normalising comparisons) plus seeded random strings (len 4..40); every comparison impl (Hip x Hip all backend pairs, Hip x std both orders) x representations; ==, !=, partial_cmp, <,<=,>,>=, cmp; recording-Hasher streams; Borrow laws and HashMap/BTreeMap lookups through every Borrow impl",
+        "rule": "exhaustive ordered pairs of byte strings of length <= 3 over {a,b,/,.,0x80} (0x80 dropped for str-typed operands) plus heap-sized strings with common prefixes plus U+FFFD / case-variant / trailing-NUL strings (lossy or normalising comparisons) plus seeded random strings (len 4..40); a second all-pairs pass over 8-40-byte operands differing at 1-3 positions inside the first word / at the word boundary / in the tail; related operands (views of one heap buffer at different offsets, clones, copies, lines()); every comparison impl (Hip x Hip all backend pairs, Hip x std both orders) x representations; ==, !=, partial_cmp, <,<=,>,>=, cmp; recording-Hasher streams; Borrow laws and HashMap/BTreeMap lookups through every Borrow impl",
         "exhaustive": true,
         "tier": cli.tier,
         "seed": cli.seed,
         "pool_size": pool.len(),
+        "word_family_pool_size": pool2.len(),
         "model_fetch_ms": t_model.as_millis() as u64,
         "total_ms": t0.elapsed().as_millis() as u64,
         "distribution": cx.distribution,
